@@ -1,43 +1,102 @@
 import CollectionsC.Proofs.TreeSet
 /-! Ledger-level facts about `cc_treetable` / `cc_treeset` needed by the cross-cutting properties
-(C06, C08, C14): which ledger fields a call can touch, refusals recorded iff `CC_ERR_ALLOC`,
-independence of everything but the allocator schedule. -/
+(C06, C08, C14): which ledger fields a call can touch — only those of the allocator triple the
+container was built with —, refusals recorded iff `CC_ERR_ALLOC`, independence of everything but the
+allocator schedule. -/
 namespace CC.TreeTable
 open CC.Spec CC.Spec.OrdMap
 variable {cmp : Nat → Nat → Int}
 
-/-! ### what the primitive ledger operations do to the fields the cross-cutting properties talk about -/
-theorem alloc_libc (m : Mem) : m.alloc.2.libc = m.libc := by unfold Mem.alloc; split <;> rfl
-theorem free_libc (m : Mem) : m.free.libc = m.libc := by unfold Mem.free; split <;> rfl
-theorem free_sched (m : Mem) : m.free.sched = m.sched := by unfold Mem.free; split <;> rfl
-theorem free_nrefused (m : Mem) : m.free.nrefused = m.nrefused := by unfold Mem.free; split <;> rfl
-theorem check_nrefused (m : Mem) (b : Bool) : (m.check b).nrefused = m.nrefused := by cases b <;> rfl
-theorem freeN_fields (n : Nat) (m : Mem) :
-    (freeN m n).libc = m.libc ∧ (freeN m n).sched = m.sched ∧ (freeN m n).nrefused = m.nrefused := by
+/-! ### the two halves of the ledger -/
+
+/-- nothing happened on the C library allocator -/
+def LibcSame (m m' : Mem) : Prop :=
+  m'.libc = m.libc ∧ m'.liveLibc = m.liveLibc ∧ m'.lalloc = m.lalloc ∧ m'.lfree = m.lfree
+/-- nothing happened on the configured allocator (and its schedule was not consumed) -/
+def ConfSame (m m' : Mem) : Prop :=
+  m'.live = m.live ∧ m'.nalloc = m.nalloc ∧ m'.nfree = m.nfree ∧ m'.nrefused = m.nrefused ∧ m'.sched = m.sched
+
+theorem LibcSame.refl (m : Mem) : LibcSame m m := ⟨rfl, rfl, rfl, rfl⟩
+theorem ConfSame.refl (m : Mem) : ConfSame m m := ⟨rfl, rfl, rfl, rfl, rfl⟩
+theorem LibcSame.trans {a b c : Mem} (h1 : LibcSame a b) (h2 : LibcSame b c) : LibcSame a c :=
+  ⟨h2.1.trans h1.1, h2.2.1.trans h1.2.1, h2.2.2.1.trans h1.2.2.1, h2.2.2.2.trans h1.2.2.2⟩
+theorem ConfSame.trans {a b c : Mem} (h1 : ConfSame a b) (h2 : ConfSame b c) : ConfSame a c :=
+  ⟨h2.1.trans h1.1, h2.2.1.trans h1.2.1, h2.2.2.1.trans h1.2.2.1, h2.2.2.2.1.trans h1.2.2.2.1,
+    h2.2.2.2.2.trans h1.2.2.2.2⟩
+
+theorem alloc_conf_libcSame (m : Mem) : LibcSame m (m.allocT .conf).2 := by
+  simp only [Mem.allocT_conf]; unfold Mem.alloc; split <;> exact ⟨rfl, rfl, rfl, rfl⟩
+theorem free_conf_libcSame (m : Mem) : LibcSame m (m.freeT .conf) := by
+  simp only [Mem.freeT_conf]; unfold Mem.free; split <;> exact ⟨rfl, rfl, rfl, rfl⟩
+theorem alloc_libc_confSame (m : Mem) : ConfSame m (m.allocT .libc).2 ∧ (m.allocT .libc).1 = true :=
+  ⟨⟨rfl, rfl, rfl, rfl, rfl⟩, rfl⟩
+theorem free_libc_confSame (m : Mem) : ConfSame m (m.freeT .libc) := by
+  unfold Mem.freeT; dsimp only; split <;> exact ⟨rfl, rfl, rfl, rfl, rfl⟩
+theorem check_libcSame (m : Mem) (b : Bool) : LibcSame m (m.check b) := by cases b <;> exact ⟨rfl, rfl, rfl, rfl⟩
+theorem check_confSame (m : Mem) (b : Bool) : ConfSame m (m.check b) := by cases b <;> exact ⟨rfl, rfl, rfl, rfl, rfl⟩
+
+theorem freeN_conf_libcSame (n : Nat) (m : Mem) : LibcSame m (freeN m .conf n) := by
   induction n generalizing m with
-  | zero => exact ⟨rfl, rfl, rfl⟩
-  | succ n ih =>
-    have := ih m.free
-    simp only [freeN]
-    rw [this.1, this.2.1, this.2.2, free_libc, free_sched, free_nrefused]
-    exact ⟨rfl, rfl, rfl⟩
-/-- a refusal is recorded exactly when the allocator call fails -/
-theorem alloc_nrefused (m : Mem) : m.alloc.2.nrefused = m.nrefused + (if m.alloc.1 then 0 else 1) := by
-  unfold Mem.alloc; split <;> rfl
+  | zero => exact LibcSame.refl m
+  | succ n ih => exact (free_conf_libcSame m).trans (ih _)
+theorem freeN_libc_confSame (n : Nat) (m : Mem) : ConfSame m (freeN m .libc n) := by
+  induction n generalizing m with
+  | zero => exact ConfSame.refl m
+  | succ n ih => exact (free_libc_confSame m).trans (ih _)
+
+/-- releases never record a refusal -/
+theorem freeT_nrefused (m : Mem) (tr : Triple) : (m.freeT tr).nrefused = m.nrefused := by
+  cases tr with
+  | conf => simp only [Mem.freeT_conf]; unfold Mem.free; split <;> rfl
+  | libc => exact (free_libc_confSame m).2.2.2.1
+theorem freeN_nrefused (n : Nat) (m : Mem) (tr : Triple) : (freeN m tr n).nrefused = m.nrefused := by
+  induction n generalizing m with
+  | zero => rfl
+  | succ n ih => simp only [freeN]; rw [ih, freeT_nrefused]
+theorem check_nrefused (m : Mem) (b : Bool) : (m.check b).nrefused = m.nrefused := by cases b <;> rfl
+/-- a refusal is recorded exactly when the allocator call fails (which the C library never does) -/
+theorem allocT_nrefused (m : Mem) (tr : Triple) :
+    (m.allocT tr).2.nrefused = m.nrefused + (if (m.allocT tr).1 then 0 else 1) := by
+  cases tr with
+  | conf =>
+    simp only [Mem.allocT_conf]
+    rcases h : m.sched with _ | ⟨b, rest⟩
+    · simp [Mem.alloc, h]
+    · cases b <;> simp [Mem.alloc, h]
+  | libc => rfl
 /-- the answer of the allocator depends on the schedule only -/
-theorem alloc_congr (m m' : Mem) (h : m.sched = m'.sched) :
-    m.alloc.1 = m'.alloc.1 ∧ m.alloc.2.sched = m'.alloc.2.sched := by
-  unfold Mem.alloc; rw [← h]; split <;> exact ⟨rfl, rfl⟩
+theorem allocT_congr (m m' : Mem) (tr : Triple) (h : m.sched = m'.sched) :
+    (m.allocT tr).1 = (m'.allocT tr).1 ∧ (m.allocT tr).2.sched = (m'.allocT tr).2.sched := by
+  cases tr with
+  | conf => simp only [Mem.allocT_conf]; unfold Mem.alloc; rw [← h]; split <;> exact ⟨rfl, rfl⟩
+  | libc => exact ⟨rfl, h⟩
 
-/-- the ledger after a call is the ledger before it, after at most one allocator call or some releases -/
-inductive MemStep (m : Mem) : Mem → Prop
-  | same : MemStep m m
-  | alloc : MemStep m m.alloc.2
-  | free : MemStep m m.free
-  | freeN (n : Nat) : MemStep m (TreeTable.freeN m n)
-  | check (b : Bool) : MemStep m (m.check b)
+/-- the ledger after a call is the ledger before it, after at most one allocator call or some releases,
+all on the triple `tr` -/
+inductive MemStep (m : Mem) (tr : Triple) : Mem → Prop
+  | same : MemStep m tr m
+  | alloc : MemStep m tr (m.allocT tr).2
+  | free : MemStep m tr (m.freeT tr)
+  | freeN (n : Nat) : MemStep m tr (TreeTable.freeN m tr n)
+  | check (b : Bool) : MemStep m tr (m.check b)
 
-theorem step_mem (t : TreeTable) (op : Op) (m : Mem) : MemStep m (t.step cmp op m).2.2.1 := by
+theorem MemStep.libcSame {m m' : Mem} (h : MemStep m .conf m') : LibcSame m m' := by
+  cases h with
+  | same => exact LibcSame.refl m
+  | alloc => exact alloc_conf_libcSame m
+  | free => exact free_conf_libcSame m
+  | freeN n => exact freeN_conf_libcSame n m
+  | check b => exact check_libcSame m b
+
+theorem MemStep.confSame {m m' : Mem} (h : MemStep m .libc m') : ConfSame m m' := by
+  cases h with
+  | same => exact ConfSame.refl m
+  | alloc => exact (alloc_libc_confSame m).1
+  | free => exact free_libc_confSame m
+  | freeN n => exact freeN_libc_confSame n m
+  | check b => exact check_confSame m b
+
+theorem step_mem (t : TreeTable) (op : Op) (m : Mem) : MemStep m t.triple (t.step cmp op m).2.2.1 := by
   cases op <;> simp only [step] <;> try exact .same
   · unfold add; dsimp only; split
     · exact .same
@@ -59,17 +118,19 @@ theorem step_mem (t : TreeTable) (op : Op) (m : Mem) : MemStep m (t.step cmp op 
       · exact .free
   · exact .freeN _
 
-theorem MemStep.libc {m m' : Mem} (h : MemStep m m') : m'.libc = m.libc := by
-  cases h with
-  | same => rfl
-  | alloc => exact alloc_libc m
-  | free => exact free_libc m
-  | freeN n => exact (freeN_fields n m).1
-  | check b => exact Mem.check_libc m b
-
-/-- C14: no call touches the C library allocator -/
-theorem step_libc (t : TreeTable) (op : Op) (m : Mem) : (t.step cmp op m).2.2.1.libc = m.libc :=
-  (step_mem t op m).libc
+/-- no call changes the allocator triple of the table -/
+theorem step_triple (t : TreeTable) (op : Op) (m : Mem) : (t.step cmp op m).2.1.triple = t.triple := by
+  cases op <;> simp only [step] <;> try rfl
+  · unfold add; dsimp only; split
+    · rfl
+    · split <;> rfl
+  · unfold remove; generalize t.lookup cmp _ = r; rcases r with ⟨_ | v, n⟩ <;> rfl
+  · unfold removeFirst; split
+    · rfl
+    · cases t.root.minEntry <;> rfl
+  · unfold removeLast; split
+    · rfl
+    · cases t.root.maxEntry <;> rfl
 
 /-- C08: the number of recorded refusals grows (by one) exactly when the call reports `CC_ERR_ALLOC` -/
 theorem step_nrefused (t : TreeTable) (op : Op) (m : Mem) :
@@ -79,19 +140,19 @@ theorem step_nrefused (t : TreeTable) (op : Op) (m : Mem) :
   · unfold add; dsimp only; split
     · simp
     · split
-      · rename_i ha; simp only [Bool.not_eq_true'] at ha ⊢; simp [alloc_nrefused, ha]
-      · rename_i ha; simp only [Bool.not_eq_true', Bool.not_eq_false] at ha; simp [alloc_nrefused, ha]
+      · rename_i ha; simp only [Bool.not_eq_true'] at ha ⊢; simp [allocT_nrefused, ha]
+      · rename_i ha; simp only [Bool.not_eq_true', Bool.not_eq_false] at ha; simp [allocT_nrefused, ha]
   · unfold get; generalize t.lookup cmp _ = r; rcases r with ⟨_ | v, n⟩ <;> simp
   · simp
   · simp
-  · unfold remove; generalize t.lookup cmp _ = r; rcases r with ⟨_ | v, n⟩ <;> simp [removeNode, free_nrefused]
+  · unfold remove; generalize t.lookup cmp _ = r; rcases r with ⟨_ | v, n⟩ <;> simp [removeNode, freeT_nrefused]
   · unfold removeFirst; by_cases h0 : t.size = 0 <;> simp only [h0, if_true, if_false]
     · simp
-    · cases t.root.minEntry <;> simp [check_nrefused, free_nrefused]
+    · cases t.root.minEntry <;> simp [check_nrefused, freeT_nrefused]
   · unfold removeLast; by_cases h0 : t.size = 0 <;> simp only [h0, if_true, if_false]
     · simp
-    · cases t.root.maxEntry <;> simp [check_nrefused, free_nrefused]
-  · simp [removeAll, (freeN_fields _ m).2.2]
+    · cases t.root.maxEntry <;> simp [check_nrefused, freeT_nrefused]
+  · simp [removeAll, freeN_nrefused]
   · unfold firstKey; cases t.root.minEntry <;> simp
   · unfold lastKey; cases t.root.maxEntry <;> simp
   · unfold firstValue; cases t.root.minEntry <;> simp
@@ -111,7 +172,7 @@ through the allocator's schedule -/
 theorem step_congr (t : TreeTable) (op : Op) (m m' : Mem) (h : m.sched = m'.sched) :
     (t.step cmp op m).1 = (t.step cmp op m').1 ∧ (t.step cmp op m).2.1 = (t.step cmp op m').2.1 ∧
     (t.step cmp op m).2.2.2 = (t.step cmp op m').2.2.2 := by
-  have ha := alloc_congr m m' h
+  have ha := allocT_congr m m' t.triple h
   cases op with
   | add k v =>
     simp only [step]; unfold add; dsimp only; rw [ha.1]; split
@@ -132,7 +193,7 @@ theorem step_congr (t : TreeTable) (op : Op) (m m' : Mem) (h : m.sched = m'.sche
 
 /-! ### iterator calls, constructor, destructor -/
 theorem iterStep_mem (t : TreeTable) (it : TreeIter) (op : IterOp) (m : Mem) :
-    MemStep m (t.iterStep cmp it op m).2.2.2 := by
+    MemStep m t.triple (t.iterStep cmp it op m).2.2.2 := by
   cases op with
   | next => exact .same
   | remove =>
@@ -141,6 +202,12 @@ theorem iterStep_mem (t : TreeTable) (it : TreeIter) (op : IterOp) (m : Mem) :
     | sentinel => exact .check false
     | null => exact .same
     | «at» k => exact .free
+
+theorem iterStep_triple (t : TreeTable) (it : TreeIter) (op : IterOp) (m : Mem) :
+    (t.iterStep cmp it op m).2.1.triple = t.triple := by
+  cases op with
+  | next => rfl
+  | remove => simp only [iterStep, iterRemove]; cases it.cur <;> rfl
 
 /-- iterator calls never ask the allocator for anything: results do not depend on the ledger -/
 theorem iterStep_congr (t : TreeTable) (it : TreeIter) (op : IterOp) (m m' : Mem) :
@@ -153,42 +220,93 @@ theorem iterStep_congr (t : TreeTable) (it : TreeIter) (op : IterOp) (m m' : Mem
     simp only [iterStep, iterRemove]
     cases it.cur <;> exact ⟨rfl, rfl, rfl⟩
 
-theorem new_libc (m : Mem) : (TreeTable.new m).2.2.libc = m.libc := by
-  unfold TreeTable.new; dsimp only
+/-- the constructor touches only the triple it is given, and hands it to the new table -/
+theorem newT_conf_libcSame (m : Mem) : LibcSame m (TreeTable.newT .conf m).2.2 := by
+  unfold TreeTable.newT; dsimp only
   split
-  · exact alloc_libc m
+  · exact alloc_conf_libcSame m
   · split
-    · rw [free_libc, alloc_libc, alloc_libc]
-    · rw [alloc_libc, alloc_libc]
+    · exact ((alloc_conf_libcSame m).trans (alloc_conf_libcSame _)).trans (free_conf_libcSame _)
+    · exact (alloc_conf_libcSame m).trans (alloc_conf_libcSame _)
+theorem newT_libc (m : Mem) :
+    ConfSame m (TreeTable.newT .libc m).2.2 ∧ (TreeTable.newT .libc m).1 = .ok := by
+  unfold TreeTable.newT; dsimp only
+  simp only [(alloc_libc_confSame _).2, Bool.not_true, Bool.false_eq_true, if_false]
+  exact ⟨(alloc_libc_confSame m).1.trans (alloc_libc_confSame _).1, trivial⟩
+theorem newT_triple (tr : Triple) (m : Mem) (t : TreeTable) (m' : Mem)
+    (h : TreeTable.newT tr m = (.ok, some t, m')) : t.triple = tr := by
+  unfold TreeTable.newT at h; dsimp only at h
+  split at h
+  · simp at h
+  · split at h
+    · simp at h
+    · simp only [Prod.mk.injEq, Option.some.injEq, true_and] at h; rw [← h.1]
 
-theorem destroy_libc (t : TreeTable) (m : Mem) : (t.destroy m).libc = m.libc := by
-  unfold destroy; rw [free_libc, free_libc, (freeN_fields _ m).1]
+theorem destroy_mem (t : TreeTable) (m : Mem) :
+    (t.triple = .conf → LibcSame m (t.destroy m)) ∧ (t.triple = .libc → ConfSame m (t.destroy m)) := by
+  unfold destroy
+  constructor
+  · intro h; rw [h]
+    exact ((freeN_conf_libcSame _ m).trans (free_conf_libcSame _)).trans (free_conf_libcSame _)
+  · intro h; rw [h]
+    exact ((freeN_libc_confSame _ m).trans (free_libc_confSame _)).trans (free_libc_confSame _)
 
 /-- the constructor fails exactly when one of its two requests is refused -/
 theorem new_refused_iff (m : Mem) :
     (TreeTable.new m).1 = .errAlloc ↔ (m.alloc.1 = false ∨ m.alloc.2.alloc.1 = false) := by
-  unfold TreeTable.new; dsimp only
-  cases h1 : m.alloc.1 <;> cases h2 : m.alloc.2.alloc.1 <;> simp
+  unfold TreeTable.new TreeTable.newT; dsimp only
+  simp only [Mem.allocT_conf]
+  rcases Bool.eq_false_or_eq_true m.alloc.1 with h1 | h1 <;>
+    rcases Bool.eq_false_or_eq_true m.alloc.2.alloc.1 with h2 | h2 <;> simp [h1, h2]
 
-theorem new_congr (m m' : Mem) (h : m.sched = m'.sched) :
-    (TreeTable.new m).1 = (TreeTable.new m').1 ∧ (TreeTable.new m).2.1 = (TreeTable.new m').2.1 := by
-  have a := alloc_congr m m' h
-  have b := alloc_congr m.alloc.2 m'.alloc.2 a.2
-  unfold TreeTable.new; dsimp only
+theorem newT_congr (tr : Triple) (m m' : Mem) (h : m.sched = m'.sched) :
+    (TreeTable.newT tr m).1 = (TreeTable.newT tr m').1 ∧ (TreeTable.newT tr m).2.1 = (TreeTable.newT tr m').2.1 := by
+  have a := allocT_congr m m' tr h
+  have b := allocT_congr (m.allocT tr).2 (m'.allocT tr).2 tr a.2
+  unfold TreeTable.newT; dsimp only
   rw [a.1, b.1]
   split
   · exact ⟨rfl, rfl⟩
   · split <;> exact ⟨rfl, rfl⟩
 
 /-! ### histories -/
-theorem run_libc (ops : List (Op × List Bool)) (t : TreeTable) (m : Mem) :
-    (t.run cmp ops m).2.2.2.libc = m.libc := by
+theorem run_triple (ops : List (Op × List Bool)) (t : TreeTable) (m : Mem) :
+    (t.run cmp ops m).2.2.1.triple = t.triple := by
+  induction ops generalizing t m with
+  | nil => rfl
+  | cons x ops ih => obtain ⟨op, sched⟩ := x; simp only [run]; rw [ih, step_triple]
+
+theorem begin_libcSame (m : Mem) (s : List Bool) :
+    (m.begin s).libc = m.libc ∧ (m.begin s).liveLibc = m.liveLibc ∧ (m.begin s).live = m.live := ⟨rfl, rfl, rfl⟩
+
+/-- a history on a table built on the configured triple never touches the C library allocator -/
+theorem run_conf (ops : List (Op × List Bool)) (t : TreeTable) (m : Mem) (ht : t.triple = .conf) :
+    (t.run cmp ops m).2.2.2.libc = m.libc ∧ (t.run cmp ops m).2.2.2.liveLibc = m.liveLibc := by
+  induction ops generalizing t m with
+  | nil => exact ⟨rfl, rfl⟩
+  | cons x ops ih =>
+    obtain ⟨op, sched⟩ := x
+    have s := step_mem (cmp := cmp) t op (m.begin sched)
+    rw [ht] at s
+    have := ih (t.step cmp op (m.begin sched)).2.1 (t.step cmp op (m.begin sched)).2.2.1
+      (by rw [step_triple, ht])
+    simp only [run]
+    rw [this.1, this.2, s.libcSame.1, s.libcSame.2.1]
+    exact ⟨rfl, rfl⟩
+
+/-- a history on a table built by the default constructor never touches the configured allocator -/
+theorem run_libc (ops : List (Op × List Bool)) (t : TreeTable) (m : Mem) (ht : t.triple = .libc) :
+    (t.run cmp ops m).2.2.2.live = m.live := by
   induction ops generalizing t m with
   | nil => rfl
   | cons x ops ih =>
     obtain ⟨op, sched⟩ := x
+    have s := step_mem (cmp := cmp) t op (m.begin sched)
+    rw [ht] at s
+    have := ih (t.step cmp op (m.begin sched)).2.1 (t.step cmp op (m.begin sched)).2.2.1
+      (by rw [step_triple, ht])
     simp only [run]
-    rw [ih, step_libc]; rfl
+    rw [this, s.confSame.1]; rfl
 
 /-- every call of a history installs its own schedule: the whole run is independent of the ledger it
 starts from -/
@@ -219,11 +337,21 @@ theorem run_append (a b : List (Op × List Bool)) (t : TreeTable) (m : Mem) :
     simp only [List.cons_append, run]
     rw [ih]
 
-theorem iterRun_libc (prog : List IterOp) (t : TreeTable) (it : TreeIter) (m : Mem) :
-    (t.iterRun cmp it prog m).2.2.2.libc = m.libc := by
+theorem iterRun_triple (prog : List IterOp) (t : TreeTable) (it : TreeIter) (m : Mem) :
+    (t.iterRun cmp it prog m).2.1.triple = t.triple := by
   induction prog generalizing t it m with
   | nil => rfl
-  | cons op rest ih => simp only [iterRun]; rw [ih, (iterStep_mem t it op m).libc]
+  | cons op rest ih => simp only [iterRun]; rw [ih, iterStep_triple]
+
+theorem iterRun_conf (prog : List IterOp) (t : TreeTable) (it : TreeIter) (m : Mem) (ht : t.triple = .conf) :
+    LibcSame m (t.iterRun cmp it prog m).2.2.2 := by
+  induction prog generalizing t it m with
+  | nil => exact LibcSame.refl m
+  | cons op rest ih =>
+    have s := iterStep_mem (cmp := cmp) t it op m
+    rw [ht] at s
+    simp only [iterRun]
+    exact s.libcSame.trans (ih _ _ _ (by rw [iterStep_triple, ht]))
 
 end CC.TreeTable
 
@@ -231,8 +359,13 @@ namespace CC.TreeSet
 open CC.Spec CC.Spec.OrdMap CC.Spec.OrdSet
 variable {cmp : Nat → Nat → Int}
 
-theorem step_libc (s : TreeSet) (op : OrdSet.Op) (m : Mem) : (s.step cmp op m).2.2.1.libc = m.libc := by
-  rw [step_eq_table]; exact TreeTable.step_libc s.t (toMapOp op) m
+theorem step_mem (s : TreeSet) (op : OrdSet.Op) (m : Mem) :
+    TreeTable.MemStep m s.t.triple (s.step cmp op m).2.2.1 := by
+  rw [step_eq_table]; exact TreeTable.step_mem s.t (toMapOp op) m
+
+theorem step_triple (s : TreeSet) (op : OrdSet.Op) (m : Mem) :
+    (s.step cmp op m).2.1.triple = s.triple ∧ (s.step cmp op m).2.1.t.triple = s.t.triple := by
+  rw [step_eq_table]; exact ⟨rfl, TreeTable.step_triple s.t (toMapOp op) m⟩
 
 theorem step_congr (s : TreeSet) (op : OrdSet.Op) (m m' : Mem) (h : m.sched = m'.sched) :
     (s.step cmp op m).1 = (s.step cmp op m').1 ∧ (s.step cmp op m).2.1 = (s.step cmp op m').2.1 ∧
@@ -241,28 +374,103 @@ theorem step_congr (s : TreeSet) (op : OrdSet.Op) (m m' : Mem) (h : m.sched = m'
   rw [step_eq_table, step_eq_table, k.1, k.2.1, k.2.2]
   exact ⟨rfl, rfl, rfl⟩
 
-theorem new_libc (m : Mem) : (TreeSet.new m).2.2.libc = m.libc := by
-  unfold TreeSet.new; dsimp only
+/-- the set constructor hands its triple to the table it wraps -/
+theorem newT_triple (tr : Triple) (m : Mem) (s : TreeSet) (m' : Mem)
+    (h : TreeSet.newT tr m = (.ok, some s, m')) : s.triple = tr ∧ s.t.triple = tr := by
+  unfold TreeSet.newT at h; dsimp only at h
+  split at h
+  · simp at h
+  · split at h
+    · rename_i heq
+      simp only [Prod.mk.injEq, Option.some.injEq, true_and] at h
+      rw [← h.1]
+      exact ⟨rfl, TreeTable.newT_triple tr _ _ _ heq⟩
+    · simp at h
+
+theorem newT_conf_libcSame (m : Mem) : TreeTable.LibcSame m (TreeSet.newT .conf m).2.2 := by
+  unfold TreeSet.newT; dsimp only
   split
-  · exact TreeTable.alloc_libc m
-  · have := TreeTable.new_libc m.alloc.2
+  · exact TreeTable.alloc_conf_libcSame m
+  · have k := TreeTable.newT_conf_libcSame (m.allocT .conf).2
     split
-    · rename_i heq; rw [heq] at this; simp only at this; rw [this, TreeTable.alloc_libc]
-    · rename_i _ heq
-      rw [heq] at this; simp only at this
-      rw [TreeTable.free_libc, this, TreeTable.alloc_libc]
+    · rename_i heq; rw [heq] at k
+      exact (TreeTable.alloc_conf_libcSame m).trans k
+    · rename_i _ heq; rw [heq] at k
+      exact ((TreeTable.alloc_conf_libcSame m).trans k).trans (TreeTable.free_conf_libcSame _)
 
-theorem destroy_libc (s : TreeSet) (m : Mem) : (s.destroy m).libc = m.libc := by
-  unfold destroy; rw [TreeTable.free_libc, TreeTable.destroy_libc]
+theorem newT_libc (m : Mem) :
+    TreeTable.ConfSame m (TreeSet.newT .libc m).2.2 ∧ (TreeSet.newT .libc m).1 = .ok := by
+  have k := TreeTable.newT_libc (m.allocT .libc).2
+  unfold TreeSet.newT; dsimp only
+  simp only [(TreeTable.alloc_libc_confSame _).2, Bool.not_true, Bool.false_eq_true, if_false]
+  generalize hr : TreeTable.newT .libc (m.allocT .libc).2 = r at k
+  obtain ⟨st, o, m'⟩ := r
+  simp only at k
+  have hst : st = .ok := k.2
+  subst hst
+  cases o with
+  | none =>
+    -- the table constructor on the C library allocator cannot fail
+    exfalso
+    unfold TreeTable.newT at hr; dsimp only at hr
+    simp [(TreeTable.alloc_libc_confSame _).2] at hr
+  | some t => exact ⟨(TreeTable.alloc_libc_confSame m).1.trans k.1, rfl⟩
 
-theorem run_libc (ops : List (OrdSet.Op × List Bool)) (s : TreeSet) (m : Mem) :
-    (s.run cmp ops m).2.2.2.libc = m.libc := by
+theorem destroy_mem (s : TreeSet) (m : Mem) (hs : s.t.triple = s.triple) :
+    (s.triple = .conf → TreeTable.LibcSame m (s.destroy m)) ∧
+    (s.triple = .libc → TreeTable.ConfSame m (s.destroy m)) := by
+  have k := TreeTable.destroy_mem s.t m
+  unfold destroy
+  constructor
+  · intro h; rw [h]; exact (k.1 (by rw [hs, h])).trans (TreeTable.free_conf_libcSame _)
+  · intro h; rw [h]; exact (k.2 (by rw [hs, h])).trans (TreeTable.free_libc_confSame _)
+
+/-- the set constructor: three requests -/
+theorem new_refused_iff (m : Mem) :
+    (TreeSet.new m).1 = .errAlloc ↔
+      (m.alloc.1 = false ∨ m.alloc.2.alloc.1 = false ∨ m.alloc.2.alloc.2.alloc.1 = false) := by
+  unfold TreeSet.new TreeSet.newT TreeTable.newT; dsimp only
+  simp only [Mem.allocT_conf]
+  rcases Bool.eq_false_or_eq_true m.alloc.1 with h1 | h1 <;>
+    rcases Bool.eq_false_or_eq_true m.alloc.2.alloc.1 with h2 | h2 <;>
+    rcases Bool.eq_false_or_eq_true m.alloc.2.alloc.2.alloc.1 with h3 | h3 <;> simp [h1, h2, h3]
+
+theorem run_triple (ops : List (OrdSet.Op × List Bool)) (s : TreeSet) (m : Mem) :
+    (s.run cmp ops m).2.2.1.triple = s.triple ∧ (s.run cmp ops m).2.2.1.t.triple = s.t.triple := by
+  induction ops generalizing s m with
+  | nil => exact ⟨rfl, rfl⟩
+  | cons x ops ih =>
+    obtain ⟨op, sched⟩ := x; simp only [run]
+    have k := step_triple (cmp := cmp) s op (m.begin sched)
+    have := ih (s.step cmp op (m.begin sched)).2.1 (s.step cmp op (m.begin sched)).2.2.1
+    exact ⟨this.1.trans k.1, this.2.trans k.2⟩
+
+theorem run_conf (ops : List (OrdSet.Op × List Bool)) (s : TreeSet) (m : Mem) (ht : s.t.triple = .conf) :
+    (s.run cmp ops m).2.2.2.libc = m.libc ∧ (s.run cmp ops m).2.2.2.liveLibc = m.liveLibc := by
+  induction ops generalizing s m with
+  | nil => exact ⟨rfl, rfl⟩
+  | cons x ops ih =>
+    obtain ⟨op, sched⟩ := x
+    have k := step_mem (cmp := cmp) s op (m.begin sched)
+    rw [ht] at k
+    have := ih (s.step cmp op (m.begin sched)).2.1 (s.step cmp op (m.begin sched)).2.2.1
+      (by rw [(step_triple s op _).2, ht])
+    simp only [run]
+    rw [this.1, this.2, k.libcSame.1, k.libcSame.2.1]
+    exact ⟨rfl, rfl⟩
+
+theorem run_libc (ops : List (OrdSet.Op × List Bool)) (s : TreeSet) (m : Mem) (ht : s.t.triple = .libc) :
+    (s.run cmp ops m).2.2.2.live = m.live := by
   induction ops generalizing s m with
   | nil => rfl
   | cons x ops ih =>
     obtain ⟨op, sched⟩ := x
+    have k := step_mem (cmp := cmp) s op (m.begin sched)
+    rw [ht] at k
+    have := ih (s.step cmp op (m.begin sched)).2.1 (s.step cmp op (m.begin sched)).2.2.1
+      (by rw [(step_triple s op _).2, ht])
     simp only [run]
-    rw [ih, step_libc]; rfl
+    rw [this, k.confSame.1]; rfl
 
 theorem run_congr (ops : List (OrdSet.Op × List Bool)) (s : TreeSet) (m m' : Mem) :
     (s.run cmp ops m).1 = (s.run cmp ops m').1 ∧ (s.run cmp ops m).2.1 = (s.run cmp ops m').2.1 ∧
@@ -283,19 +491,75 @@ theorem run_congr (ops : List (OrdSet.Op × List Bool)) (s : TreeSet) (m m' : Me
 theorem iterStep_eq_table (s : TreeSet) (it : TreeIter) (op : IterOp) (m : Mem) :
     s.iterStep cmp it op m =
       ({ st := (s.t.iterStep cmp it op m).1.st, val := (s.t.iterStep cmp it op m).1.val },
-       { t := (s.t.iterStep cmp it op m).2.1 }, (s.t.iterStep cmp it op m).2.2.1,
+       { s with t := (s.t.iterStep cmp it op m).2.1 }, (s.t.iterStep cmp it op m).2.2.1,
        (s.t.iterStep cmp it op m).2.2.2) := by
   cases op <;> rfl
 
 theorem iterRun_eq_table (prog : List IterOp) (s : TreeSet) (it : TreeIter) (m : Mem) :
     (s.iterRun cmp it prog m).1 = (s.t.iterRun cmp it prog m).1.map (fun o => { st := o.st, val := o.val }) ∧
     (s.iterRun cmp it prog m).2.1.t = (s.t.iterRun cmp it prog m).2.1 ∧
+    (s.iterRun cmp it prog m).2.1.triple = s.triple ∧
     (s.iterRun cmp it prog m).2.2 = (s.t.iterRun cmp it prog m).2.2 := by
   induction prog generalizing s it m with
-  | nil => exact ⟨rfl, rfl, rfl⟩
+  | nil => exact ⟨rfl, rfl, rfl, rfl⟩
   | cons op rest ih =>
     simp only [iterRun, TreeTable.iterRun, List.map_cons]
     rw [iterStep_eq_table]
-    have := ih { t := (s.t.iterStep cmp it op m).2.1 } (s.t.iterStep cmp it op m).2.2.1 (s.t.iterStep cmp it op m).2.2.2
-    exact ⟨by rw [this.1], this.2.1, this.2.2⟩
+    have := ih { s with t := (s.t.iterStep cmp it op m).2.1 } (s.t.iterStep cmp it op m).2.2.1 (s.t.iterStep cmp it op m).2.2.2
+    exact ⟨by rw [this.1], this.2.1, this.2.2.1, this.2.2.2⟩
 end CC.TreeSet
+
+namespace CC.TreeTable
+open CC.Spec CC.Spec.OrdMap
+variable {cmp : Nat → Nat → Int}
+
+/-- C16 without any ledger hypothesis: no rejected path calls the allocator or releases anything -/
+theorem step_inert {t : TreeTable} (h : t.Inv cmp) (op : Op) (m : Mem) (st : Stat)
+    (hst : (t.step cmp op m).1.st = some st) (h1 : st ≠ .ok) (h2 : st ≠ .errAlloc) :
+    (t.step cmp op m).2.1 = t ∧ (t.step cmp op m).2.2.1 = m := by
+  have hne : t.size ≠ 0 → t.root.toList ≠ [] := by
+    intro h0 hn
+    have := h.size_eq; unfold abs at this; rw [hn] at this; exact h0 this
+  cases op with
+  | add k v =>
+    simp only [step] at hst ⊢
+    unfold add at hst ⊢; dsimp only at hst ⊢
+    split at hst
+    · simp only [Option.some.injEq] at hst; exact absurd hst.symm h1
+    · split at hst
+      · simp only [Option.some.injEq] at hst; exact absurd hst.symm h2
+      · simp only [Option.some.injEq] at hst; exact absurd hst.symm h1
+  | remove k =>
+    simp only [step] at hst ⊢
+    unfold remove at hst ⊢
+    generalize t.lookup cmp k = r at hst ⊢
+    rcases r with ⟨_ | v, n⟩
+    · exact ⟨rfl, rfl⟩
+    · simp only [Option.some.injEq] at hst; exact absurd hst.symm h1
+  | removeFirst =>
+    simp only [step] at hst ⊢
+    unfold removeFirst at hst ⊢
+    split at hst
+    · rename_i h0; simp only [h0, if_true]; exact ⟨trivial, trivial⟩
+    · rename_i h0
+      have := Tree.minEntry_eq t.root
+      cases hm : t.root.minEntry with
+      | none =>
+        rw [hm] at this
+        exact absurd (List.head?_eq_none_iff.1 this.symm) (hne h0)
+      | some e => rw [hm] at hst; simp only [Option.some.injEq] at hst; exact absurd hst.symm h1
+  | removeLast =>
+    simp only [step] at hst ⊢
+    unfold removeLast at hst ⊢
+    split at hst
+    · rename_i h0; simp only [h0, if_true]; exact ⟨trivial, trivial⟩
+    · rename_i h0
+      have := Tree.maxEntry_eq t.root
+      cases hm : t.root.maxEntry with
+      | none =>
+        rw [hm] at this
+        exact absurd (List.getLast?_eq_none_iff.1 this.symm) (hne h0)
+      | some e => rw [hm] at hst; simp only [Option.some.injEq] at hst; exact absurd hst.symm h1
+  | removeAll => simp [step] at hst
+  | _ => exact ⟨rfl, rfl⟩
+end CC.TreeTable
